@@ -82,7 +82,73 @@ def gen(rng):
     return {"glyphs": glyphs, "lib": ({"public.openTypeCategories": cats} if cats else {}), "features": fea, "user_gdef": user_gdef}
 
 
+def direction_closure_section(ctx):
+    """'glyphs of left-to-right scripts' includes the unencoded glyphs that LTR characters turn into: through GSUB rules of the
+    feature file and through designspace <rule> substitutions (handed to the writers as extra substitutions). Independent
+    statement: closure of the cmap under both kinds of substitution; the cursive lookup's RightToLeft flag is cleared exactly
+    for the glyphs in the LTR closure."""
+    import ufo2ft
+    from fontTools.ttLib import TTFont
+    from fontTools.designspaceLib import RuleDescriptor
+    from harness import dsgen
+    rng = ctx.subrng("direction-closure")
+    GL = [("n", 0x6E), ("o", 0x6F), ("n.alt", None), ("n.sc", None), ("behDotless-ar", 0x66E), ("behDotless-ar.fina", None),
+          ("behDotless-ar.alt", None), ("orphan", None)]
+    GSUB = "feature smcp {\n    sub n by n.sc;\n} smcp;\nfeature fina {\n    sub behDotless-ar by behDotless-ar.fina;\n} fina;\n"
+    for i in range(ctx.budget(12, 48)):
+        lib = ["ufoLib2", "defcon"][i % 2]
+        with_gsub = i % 2 == 0 or i % 6 == 5
+        mode = ["static", "interpolatable-ttf-from-ds", "variable-ttf-static-features", "interpolatable-otf-from-ds",
+                "variable-ttf", "interpolatable-ttf-from-ds"][i % 6]
+        glyphs = [{"name": n, "unicodes": [u] if u else [], "width": 500, "contours": [], "components": [],
+                   "anchors": [("entry", Fr(rng.randint(0, 80)), Fr(rng.randint(0, 50))), ("exit", Fr(rng.randint(400, 500)), Fr(rng.randint(0, 50)))]}
+                  for n, u in GL]
+        desc = {"glyphs": glyphs, "features": "languagesystem DFLT dflt;\n" + (GSUB if with_gsub else ""), "glyphOrder": [n for n, _ in GL]}
+        rules = mode != "static"
+        ltr = {"n", "o"} | ({"n.sc"} if with_gsub else set()) | ({"n.alt"} if rules else set())
+        case = {"font": jsonable(desc), "lib": lib, "mode": mode, "gsub_features": with_gsub,
+                "designspace_rules": [["n", "n.alt"], ["behDotless-ar", "behDotless-ar.alt"]] if rules else [],
+                "expected_ltr_glyphs": sorted(ltr)}
+        ctx.count(); ctx.klass("direction closure: %s/%s" % (mode, "gsub" if with_gsub else "no-gsub")); ctx.nontriv(("dc", i, ctx.scale))
+        try:
+            if not rules:
+                tts = [ufo2ft.compileTTF(build_font(desc, lib), useProductionNames=False)]
+            else:
+                r2 = __import__("random").Random(i)
+                ds, ufos = dsgen.make_designspace(r2, [desc, dsgen.perturb(r2, desc, 1)], lib, instances=False)
+                r = RuleDescriptor(); r.name = "alt"
+                r.conditionSets = [[{"name": ds.axes[0].name, "minimum": 500, "maximum": ds.axes[0].maximum}]]
+                r.subs = [("n", "n.alt"), ("behDotless-ar", "behDotless-ar.alt")]
+                ds.rules.append(r)
+                if mode == "interpolatable-ttf-from-ds":
+                    tts = [sd.font for sd in ufo2ft.compileInterpolatableTTFsFromDS(ds, useProductionNames=False).sources]
+                elif mode == "interpolatable-otf-from-ds":
+                    tts = [sd.font for sd in ufo2ft.compileInterpolatableOTFsFromDS(ds, useProductionNames=False).sources]
+                elif mode == "variable-ttf-static-features":
+                    tts = [ufo2ft.compileVariableTTF(ds, useProductionNames=False, variableFeatures=False)]
+                else:
+                    tts = [ufo2ft.compileVariableTTF(ds, useProductionNames=False)]
+        except Exception as e:
+            ctx.spec_failure(case, "compile raised %s: %s\n%s" % (type(e).__name__, e, traceback.format_exc()[-1200:]))
+            continue
+        for k, tt in enumerate(tts):
+            buf = io.BytesIO(); tt.save(buf); buf.seek(0)
+            lay = Layout(TTFont(buf))
+            seen = {}
+            for li, flag, recs in lay.cursive():
+                for g in recs:
+                    seen[g] = bool(flag & 1)
+            want = {n: n not in ltr for n, _ in GL}
+            if seen != want:
+                wrong = sorted(g for g in want if seen.get(g) != want[g])
+                ctx.spec_failure(dict(case, font_index=k, right_to_left_flag_by_glyph=seen),
+                                 "RightToLeft flag of the cursive lookup is wrong for %r (LTR closure of the cmap under GSUB and rule "
+                                 "substitutions is %r)" % (wrong, sorted(ltr)))
+                break
+
+
 def explore(ctx):
+    direction_closure_section(ctx)
     import ufo2ft
     from fontTools.ttLib import TTFont
     from ufo2ft.util import classifyGlyphs, unicodeScriptDirection
